@@ -76,6 +76,8 @@ inductive Event where
   | stageFail (step stage : String)
   /-- the retry goroutine of `checkForDeadlocks` fires with `retries` left -/
   | tick (retries : Nat) (busy : Bool)
+  /-- `Execute` leaves its wait: `handleErrors` empties the error channel (then steps are terminated) -/
+  | drain
   deriving Repr, Inhabited
 
 structure LoopState where
@@ -202,6 +204,12 @@ def sendErr (cap : Nat) (r : R) (k : ErrKind) : R :=
   else if r.1.errs < cap then ({ r.1 with errs := r.1.errs + 1 }, r.2 ++ [.errorSent k])
   else die r .stuck
 
+/-- `select { case l.recentErrors <- err: default: }`: dropped when the buffer is full -/
+def trySendErr (cap : Nat) (r : R) (k : ErrKind) : R :=
+  if r.1.dead then r
+  else if r.1.errs < cap then ({ r.1 with errs := r.1.errs + 1 }, r.2 ++ [.errorSent k])
+  else r
+
 def doCancel (r : R) : R :=
   if r.1.dead then r else ({ r.1 with cancelled := true }, r.2 ++ [.cancel])
 
@@ -231,7 +239,13 @@ def markStageUnres (step stage : String) (r : R) : R :=
     | .ok g => ({ r.1 with dag := g }, r.2)
     | .error _ => die r (.panic .markStageNodeUnresolvable)
 
-def setStageData (data : Val) (step stage out : String) (v : Val) : Val :=
+/-- `serializedOutput`: a Go struct output is stored as the map of its (JSON) fields -/
+def serializedOutput : Val → Val
+  | .gostruct _ kvs => .map kvs
+  | v => v
+
+def setStageData (data : Val) (step stage out : String) (v0 : Val) : Val :=
+  let v := serializedOutput v0
   match data with
   | .map top =>
     let steps := match lookup "steps" top with
@@ -251,6 +265,8 @@ def processNode (P : Prepared) (fns : Fns) (notify : R → R) (r : R) (nodeId : 
   | some item =>
     if st = .unres then
       if item.kind = .output then
+        -- a failed output node can become ready again; only the first time counts
+        if !(r.1.waitingOutputs.contains nodeId) then (r, false) else
         let s1 := { r.1 with waitingOutputs := r.1.waitingOutputs.filter (· ≠ nodeId) }
         if s1.waitingOutputs.isEmpty ∧ !s1.outputDone then
           let r2 := doCancel (sendErr P.errCap (s1, r.2) .noMoreOutputs)
@@ -269,7 +285,9 @@ def processNode (P : Prepared) (fns : Fns) (notify : R → R) (r : R) (nodeId : 
       else (r, false)
     | some inData =>
       match resolveIn fns r.1.dag r.1.data inData with
-      | .error _ => (die r (.panic .resolveExpressions), true)
+      | .error _ =>
+        -- reported through the error channel with a non-blocking send, then cancel and `return`
+        (doCancel (trySendErr P.errCap r .evalFailed), true)
       | .ok v =>
         match item.kind with
         | .stage =>
@@ -366,7 +384,10 @@ def react (P : Prepared) (fns : Fns) (ord : Order) (s : LoopState) (e : Event) :
     let r := markOutputsUnres P step stage none (s, [])
     let r := markStageUnres step stage r
     if r.1.dead then r else notifySteps P fns ord (notifyFuel P) r
-  | .tick retries busy => checkDeadlock P retries busy (s, [])
+  | .tick retries busy =>
+    -- the retry goroutine selects on the run context: once cancelled it returns without checking
+    if s.cancelled then (s, []) else checkDeadlock P retries busy (s, [])
+  | .drain => ({ s with errs := 0 }, [])
 
 def runFrom (P : Prepared) (fns : Fns) (ord : Order) : LoopState → List Event → LoopState × List Action
   | s, [] => (s, [])
